@@ -48,9 +48,20 @@ def is_fixed_const(fx, t, want):
 def is_unit_clamp(fx, t):
     """term is a call to clamp(x, -1, 1) carried out on the 16.16 type: a clamp after the narrowing to 2.14 comes too late,
     F2Dot14::from wraps values outside [-2, 2)"""
-    return (t[0] == "call" and (t[4] or t[1] or "").endswith("::clamp") and len(t[2]) == 3
+    if (t[0] == "call" and (t[4] or t[1] or "").endswith("::clamp") and len(t[2]) == 3
             and (len(t) <= 5 or (t[5] or "tables::Fixed") == "tables::Fixed")
-            and is_fixed_const(fx, t[2][1], -1) and is_fixed_const(fx, t[2][2], 1))
+            and is_fixed_const(fx, t[2][1], -1) and is_fixed_const(fx, t[2][2], 1)):
+        return True
+    # the same written out: x.max(-1).min(1) or x.min(1).max(-1) on the 16.16 type
+    def mm(u, name):
+        return u[0] == "call" and (u[4] or u[1] or "").endswith("Ord::" + name) and len(u[2]) == 2 and (len(u) <= 5 or (u[5] or "tables::Fixed") == "tables::Fixed")
+    if mm(t, "min") and is_fixed_const(fx, t[2][1], 1):
+        inner = sym.strip(t[2][0])
+        return mm(inner, "max") and is_fixed_const(fx, inner[2][1], -1)
+    if mm(t, "max") and is_fixed_const(fx, t[2][1], -1):
+        inner = sym.strip(t[2][0])
+        return mm(inner, "min") and is_fixed_const(fx, inner[2][1], 1)
+    return False
 
 
 def returns_unit_clamp(fx, path):
@@ -206,6 +217,23 @@ def t13_ord(run, fx):
     if b is None:
         return run.anchor_missing(rule, DEFAULT_NORMALIZE)
     prov = sym.Prov(b)
+    # first choice: read the function as a decision list and evaluate every path on a grid that contains all orderings and ties of the
+    # coordinate and the three axis values, malformed axes (min > default, default > max, min > max) included: a clamp whose bounds
+    # arrive the wrong way round on any of them is the panic this rule is about, however the bounds were computed
+    import fnread
+    try:
+        grid = [Fraction(k, 2) for k in (-4, -2, -1, 0, 1, 2, 4)]
+        places = {"minv": "(*axis).min_value", "default": "(*axis).default_value", "maxv": "(*axis).max_value"}
+        cnt, bad = fnread.compare(b, ["coord", "minv", "default", "maxv"], grid, lambda **kw: "no-panic", None, places=places, outcome=lambda v: "panics" if v == "panic" else "no-panic")
+        if bad:
+            a = bad[0][0]
+            run.fail(rule, "default_normalize:clamp-unordered", "default_normalize reaches a clamp whose lower bound exceeds its upper bound, e.g. for coord=%s on an axis min=%s default=%s max=%s: "
+                     "Ord::clamp panics" % (a["coord"], a["minv"], a["default"], a["maxv"]), "%s:%s" % (b.file, b.line))
+        else:
+            run.ok(rule, "default_normalize: no clamp with unordered bounds on %d assignments (all orderings of coord, min, default, max)" % cnt)
+        return
+    except fnread.Undecided as e:
+        run.notes.append("%s: default_normalize not readable as a decision list (%s); falling back to the shape of the bounds" % (rule, e))
     n = 0
     for bi, t in b.calls():
         if not callee_is(t, "::clamp"):
